@@ -1,7 +1,7 @@
 """C04 — counterexamples marked valid are reproducible (value parsing, validity labelling,
 refine-once control flow).
 
-Obligations: T-refine, Props/C04.vo, lint.
+Obligations: T-refine, T-solvefs, Props/C04.vo, lint.
 Ties (every run):
   X-const   solve.parse_const_value on generated value texts (three syntaxes + malformed)
             vs the extracted model vs the intended value;
@@ -16,7 +16,19 @@ Ties (every run):
             validity flag and number of solver runs; (b) with the real solvers on real
             Path queries that need refinement of mul/div/mod/sdiv/smod (must end valid,
             with values that satisfy the exact EVM constraints) or contain exp (must be
-            labelled potentially invalid).
+            labelled potentially invalid), at every width sevm declares an abstraction
+            (256 / 264 / 512), incl. zero divisors with the value of the bare SMT-LIB operator
+            (no EVM model exists: never valid);
+  X-fs      sequences of queries solved by the real solve_end_to_end in ONE dump directory
+            (as with --dump-smt-directory: path ids repeat, files of other queries / of an
+            earlier run are there), with a scripted solver that answers by the content of the
+            file it is handed: the reported model must be the solver's model of the current
+            query, the files left behind must be the current query's; result, validity,
+            number of runs and the whole directory afterwards vs the extracted model
+            (Model/SolveFsModel.v interpreting the regenerated gen_dump / gen_low_level);
+  X-l3      python -m halmos --dump-smt-directory end to end on fabricated projects with
+            overloaded tests, several runs sharing the directory, each test with exactly one
+            failing input: every counterexample marked valid must assign that input.
 """
 import itertools
 import os
@@ -34,7 +46,8 @@ KNOWN = []
 ASSUMPTIONS = [
     "the external solver's model satisfies the query it was given (solver soundness); the check replays every valid counterexample on the exact EVM constraints as support",
     "solver outputs are ASCII; Python's int() leniencies (underscores, signs, surrounding whitespace) are outside the model because halmos_var_pattern only passes [01]+ / [0-9a-fA-F]+ / decimal digits to parse_const_value",
-    "the dispatch of _solve_end_to_end_callback on model.is_valid (valid list vs `potentially invalid` warning) is read from __main__.py, not executed",
+    "the dispatch of _solve_end_to_end_callback on model.is_valid (valid list vs `potentially invalid` warning) is read from __main__.py; it is executed only by the X-l3 runs",
+    "the solver reads the file named on its command line while it runs and nothing else writes to the dump directory in between (one process per dump directory; path ids are unique among the paths of one function that are solved concurrently)",
     "the extracted model and driver are faithful to the Coq definitions (extraction is trusted)",
 ]
 PARTIAL = "C04_valid_cex (a valid model, replayed as an input, drives the concrete EVM to the reported panic) needs the C01 reference interpreter and is not part of this module; the check replays valid models on the path constraints with exact arithmetic instead"
@@ -775,6 +788,33 @@ def run(rep, tier):
                 fail("broken-tie", f"solve_end_to_end in a used dump directory, query {st['key']}: implementation vs model (implementation, model) differ in {str(diff)[:600]}", case)
 
     phase("fs")
+    # ---- X-l3: python -m halmos --dump-smt-directory, runs sharing the directory, overloaded tests
+    from harness import c04_l3
+
+    for scn in c04_l3.gen_scenarios(tier, r):
+        try:
+            lobs = c04_l3.run_scenario(scn)
+        except Exception as e:  # noqa: BLE001
+            fail("broken-tie", f"the end-to-end run with --dump-smt-directory could not be made: {type(e).__name__}: {e}", {"l3": scn})
+            continue
+        for k, o in enumerate(lobs):
+            case = {"l3": {"runs": scn["runs"][:k + 1], "solver": scn["solver"]}}
+            rep.count("l3_run", f"run {k + 1} in the same dump directory, {len(o['tests'])} tests")
+            rep.case({"l3": common.case_hash(case)}, nontrivial=True)
+            if o["error"] is not None:
+                fail("broken-tie", f"halmos produced no report: {o['error'][-300:]}", case)
+                continue
+            for sig, t in o["tests"].items():
+                valid = [mm for mm in t["models"] if mm["valid"]]
+                wrong = [mm for mm in valid if mm["y"] != t["want"]]
+                if wrong:
+                    fail("failing-input", f"python -m halmos --dump-smt-directory, run {k + 1}: {sig} reports the valid counterexample {wrong[0]['names']} with y = {wrong[0]['y']}, "
+                         f"but the test fails only for y = {t['want']} (files in the directory: {o['dump_files']})", case, sig={"what": "cex-not-reproducible"})
+                elif t["status"] != "FAIL" or not valid:
+                    fail("failing-input", f"python -m halmos --dump-smt-directory, run {k + 1}: {sig} fails for y = {t['want']} but ended {t['status']} with models {t['models']}", case,
+                         sig={"what": "refinement-lost-cex"})
+
+    phase("l3")
     # ---- X-e2e with the real solvers
     rcases = gen_real_cases(tier, r)
     calls, robs = [], []
@@ -828,7 +868,7 @@ def run(rep, tier):
         trusted_base=common.TRUSTED_BASE_COMMON + ["the z3 and yices-smt2 binaries in /venv/bin as truthful solvers in the end-to-end part of the correspondence run"],
         assumptions=ASSUMPTIONS,
         partial=PARTIAL,
-        rule="five case families: (1) const: value texts in the syntaxes #b / #x (both cases) / (_ bvN W) / bvN for boundary and random values up to 512 bits plus malformed texts; non-trivial = well-formed value > 9; (2) model_output: generated get-model outputs with 1-5 define-fun entries (halmos_/p_/other names, |quoted|, wrapped lines, three value syntaxes, unparsable values); (3) print: real z3 / yices-smt2 (halmos' arguments, and --smt2-model-format alone) printing the model of x = n at widths 8/160/256/264; (4) scripted: every combination of canned first/refined solver answers x unsat-core hit x already-refined x refinement-changes-text through the real solve_end_to_end; non-trivial = first answer is sat; (5) real: Path queries f_evm_op(x, y) = r with x and/or y pinned, through the real solve_end_to_end with real z3 / yices (refinement needed), incl. exp (must stay potentially invalid) and unsatisfiable-after-refinement ones; distinct by hash of the case",
+        rule="five case families: (1) const: value texts in the syntaxes #b / #x (both cases) / (_ bvN W) / bvN for boundary and random values up to 512 bits plus malformed texts; non-trivial = well-formed value > 9; (2) model_output: generated get-model outputs with 1-5 define-fun entries (halmos_/p_/other names, |quoted|, wrapped lines, three value syntaxes, unparsable values); (3) print: real z3 / yices-smt2 (halmos' arguments, and --smt2-model-format alone) printing the model of x = n at widths 8/160/256/264; (4) scripted: every combination of canned first/refined solver answers x unsat-core hit x already-refined x refinement-changes-text through the real solve_end_to_end; non-trivial = first answer is sat; (5) real: Path queries f_evm_op(x, y) = r with x and/or y pinned, through the real solve_end_to_end with real z3 / yices (refinement needed), incl. exp (must stay potentially invalid) and unsatisfiable-after-refinement ones; (6) fs: sessions of 2-5 queries solved in one dump directory pre-populated (60%) with files of an earlier run, path ids drawn from a small set so that names collide, scripted solver keyed by the content it is handed, first / refined answers from {valid, abstract, unsat, unknown, garbage, timeout}, unsat-core hits, already-refined contexts; non-trivial = a file named like the current query's was already there; (7) l3: python -m halmos --dump-smt-directory on fabricated contracts with overloaded tests (identity / XOR / ADD conditions, one failing input each), two runs sharing the directory; distinct by hash of the case",
     )
 
 
@@ -842,6 +882,12 @@ def replay(rep, body):
             print(case["model_output"], "->", real_parse_model(case["model_output"]))
         elif "scripted" in case:
             print(case["scripted"], "->", run_scripted(case["scripted"], td))
+        elif "l3" in case:
+            from harness import c04_l3
+
+            for k, o in enumerate(c04_l3.run_scenario(case["l3"])):
+                print(f"run {k + 1}:", {sig: {"status": t["status"], "valid models": [mm["y"] for mm in t["models"] if mm["valid"]], "only failing input": t["want"]}
+                                        for sig, t in o["tests"].items()}, o["dump_files"])
         elif "session" in case:
             sess = case["session"]
             for st, o in zip(sess["steps"], run_session(sess, td)):
